@@ -107,6 +107,45 @@ func runSelftest(repo, verifDir string, only string) int {
 		}
 	}
 	fmt.Printf("selftest: %d seeded changes, %d not detected, %d outside the claimed scope (recorded)\n", n, bad, oos)
+	// must-pass corpus: behaviour-preserving refactorings must not raise an alarm
+	rdirs, _ := filepath.Glob(filepath.Join(verifDir, "refactorings", "*"))
+	sort.Strings(rdirs)
+	rn, alarms := 0, 0
+	for _, d := range rdirs {
+		if only != "" && !strings.Contains(filepath.Base(d), only) {
+			continue
+		}
+		var meta struct {
+			Properties []string `json:"properties"`
+		}
+		b, err := os.ReadFile(filepath.Join(d, "meta.json"))
+		if err != nil {
+			continue
+		}
+		json.Unmarshal(b, &meta)
+		ov, err := overlayFromPatch(repo, filepath.Join(d, "patch.diff"))
+		if err != nil {
+			fmt.Printf("selftest %s: does not apply to this tree (skipped)\n", filepath.Base(d))
+			continue
+		}
+		rn++
+		for _, prop := range meta.Properties {
+			old := os.Stdout
+			null, _ := os.OpenFile(os.DevNull, os.O_WRONLY, 0)
+			os.Stdout = null
+			code := runCheck(repo, verifDir, CheckOpts{Prop: prop, Tier: "quick", TimeoutS: 20}, ov, false)
+			os.Stdout = old
+			null.Close()
+			if code != 0 {
+				fmt.Printf("selftest %-8s (%s): FALSE ALARM on a behaviour-preserving refactoring\n", filepath.Base(d), prop)
+				alarms++
+			}
+		}
+	}
+	if rn > 0 {
+		fmt.Printf("selftest: %d behaviour-preserving refactorings, %d false alarms\n", rn, alarms)
+		bad += alarms
+	}
 	if bad > 0 {
 		return 1
 	}
